@@ -337,6 +337,69 @@ def scale_apply_line(line, c):
 KINDS = ['through_forms', 'abbreviated', 'double_forms', 'order', 'ab_scaling', 'unrelated', 'e12_ue14', 'renumber', 'freq_split', 'unrelated_kit', 'freq_split_kit', 'many_params']
 
 
+def perturb_add(rng, line, size):
+    """the `cal add` line with every measured value moved by a complex amount of the given size (m form only)"""
+    w = line.split()
+    i = w.index('m')
+    nf, r, c = int(w[i + 1]), int(w[i + 2]), int(w[i + 3])
+    k = i + 4
+    for q in range(nf * r * c):
+        v = vlib.hs2c(w[k + 2 * q:k + 2 * q + 2])[0] + size * complex(rng.gauss(0, 1), rng.gauss(0, 1))
+        w[k + 2 * q:k + 2 * q + 2] = vlib.c2h(v).split()
+    return ' '.join(w)
+
+
+def order_noisy(chk, exe, rng, reps):
+    """measurements that do not fit the error model exactly (every value off by about 1e-3), the same standards added in another order:
+    the least-squares problem is the same, so are the solved parameters and the corrected device — for the analytic TRL solution to
+    rounding, for the iterated ones to the parameter tolerance"""
+    from props import c02
+    for rep in range(reps):
+        for kind, typ in (('trl', 'T8'), ('trl', 'U8'), ('trl', 'TE10'), ('trl', 'UE10'), ('trla', 'T8'), ('trla', 'UE10'), ('solr', 'U8'), ('solr', 'E12'), ('extra2', 'UE14'), ('extra2', 'TE10')):
+            seed = rng.randrange(1 << 30)
+            sc = c02.build(random.Random(seed), kind, typ, 1, 'm')
+            r2 = random.Random(seed + 1)
+            base = [perturb_add(r2, l, 1e-3) if l.startswith('cal add ') else l for l in sc.lines]
+            first_add = next(i for i, l in enumerate(base) if l.startswith('cal add '))
+            last_add = max(i for i, l in enumerate(base) if l.startswith('cal add '))
+            mid = base[first_add:last_add + 1]
+            makes = [l for l in mid if not l.startswith('cal add ')]
+            adds = [l for l in mid if l.startswith('cal add ')]
+            res = []
+            orders = [list(adds), list(reversed(adds))] + [r2.sample(adds, len(adds)) for _ in range(2)]
+            for od in orders:
+                lines = base[:first_add] + makes + od + base[last_add + 1:]
+                shift = len(lines) - len(base)
+                assert shift == 0
+                o, rc, err = vlib.run_lines(exe, lines, timeout=300)
+                chk.evaluations += 1
+                tag = '%s %s 2x2 with measurements off by 1e-3' % (kind, typ)
+                if rc != 0 or len(o) != len(lines):
+                    chk.violation('sanitizer-order', '%s: crash / sanitizer report:\n%s' % (tag, err[-1200:]), lines[:len(o) + 1])
+                    return
+                solved = o[sc.i_solve].startswith('ok')
+                vals = [vlib.hs2c(o[i].split()[-2:])[0] for idx in sc.i_vals.values() for i in idx] if solved else None
+                S = calsim.parse_apply(o[sc.i_apply], sc.p)[1] if solved else None
+                res.append((solved, vals, S, lines))
+            if len(set(r[0] for r in res)) > 1:
+                bad = next(r for r in res if not r[0])
+                chk.violation('order-refused', '%s: the solve succeeds with the standards in one order and fails in another' % tag, bad[3][:sc.i_solve + 1])
+                return
+            if not res[0][0]:
+                chk.count('order_noisy_unsolved')
+                continue
+            tol = 1e-9 if kind == 'trl' and typ in ('T8', 'U8') else 2e-5
+            for (_, vals, S, lines) in res[1:]:
+                dv = max([abs(a - b) for a, b in zip(vals, res[0][1])] + [0.0])
+                ds = max(float(np.abs(a - b).max()) for a, b in zip(S, res[0][2]))
+                if not (dv <= tol and ds <= tol):
+                    chk.violation('order-noisy', '%s: the same standards in another order give solved parameters that differ by %.3e and a corrected device that differs by %.3e (limit %.0e)' % (
+                        tag, dv, ds, tol), ['# order A'] + res[0][3][:sc.i_apply + 1] + ['cal free 0', '# order B'] + lines[:sc.i_apply + 1])
+                    return
+            chk.count('order_noisy_ok')
+            chk.distinct.add(('order-noisy', kind, typ, seed))
+
+
 def run(chk):
     rng = random.Random(chk.seed * 43 + 17)
     broken = []
@@ -398,6 +461,8 @@ def run(chk):
             continue
         chk.count('ok_' + kind)
         chk.distinct.add(tag + str(pos))
+    if not chk.violations:
+        order_noisy(chk, exe, rng, (1 if quick else 10) * (3 if broken else 1))
     chk.samples = [cases[0][4][:3], cases[-1][4][-4][:200]]
     if broken and not chk.violations:
         chk.violation('obligation', 'proof/correspondence obligations that no longer check:\n' + '\n'.join(broken[:30]), nofail=True)
